@@ -355,6 +355,18 @@ int main(int argc, char** argv) {
                     R.count("transitions");
                     if (got != i) { bad = "value #" + std::to_string(i) + " (round " + std::to_string(round) + ") got index " + std::to_string(got); break; }
                 }
+                // the tables of a copy behave like those of the block itself: the first, a middle and the LAST value added again on a copy keep their indices and do not grow the table
+                if (bad.empty()) { CdnsBlock c(b); size_t before = 0;
+                    switch (t.table) { case 0: before = c.m_ip_address.size(); break; case 1: before = c.m_classtype.size(); break; case 2: before = c.m_name_rdata.size(); break; case 3: before = c.m_qr_sig.size(); break; case 4: before = c.m_qlist.size(); break; case 5: before = c.m_qrr.size(); break; case 6: before = c.m_rrlist.size(); break; case 7: before = c.m_rr.size(); break; default: before = c.m_malformed_message_data.size(); }
+                    for (size_t i : {(size_t)0, N / 2, N - 1}) { index_t got = 0;
+                        switch (t.table) {
+                        case 0: got = c.add_ip_address("ip" + std::to_string(i)); break; case 1: { ClassType x; x.type = i & 0xffff; x.class_ = i >> 16; got = c.add_classtype(x); break; }
+                        case 2: got = c.add_name_rdata(std::string(i % 50, 'x') + std::to_string(i)); break; case 3: { QueryResponseSignature sg; sg.query_ancount = i; if (i & 1) sg.server_port = i & 0xffff; got = c.add_qr_signature(sg); break; }
+                        case 4: got = c.add_question_list({(index_t)i, (index_t)(i / 3)}); break; case 5: { Question q; q.name_index = i; q.classtype_index = i / 7; got = c.add_question(q); break; }
+                        case 6: got = c.add_rr_list({(index_t)(i * 2)}); break; case 7: { RR r; r.name_index = i; if (i % 3 == 0) r.ttl = i; if (i % 5 == 0) r.rdata_index = i; got = c.add_rr(r); break; }
+                        case 8: { MalformedMessageData m; m.mm_payload = "p" + std::to_string(i); got = c.add_malformed_message_data(m); break; }
+                        }
+                        if (got != i) { bad = "on a copy of the block value #" + std::to_string(i) + " (of " + std::to_string(before) + ") got index " + std::to_string(got); break; } } }
                 R.count("traces"); R.count("nontrivial");
                 if (!bad.empty()) R.violation(std::string("tables|growth|") + tabs[t.table].name, bad, "growth=1;table=" + std::to_string(t.table));
                 R.outcome("growth-ok");
